@@ -3,7 +3,7 @@
 (* (unchanged).  StrongConvergence (equal causal history => equal replica state) is the  *)
 (* spec's; here: equal knowledge => equal READ values (the LocalGCntr read, SUM), and     *)
 (* counters never decrease.  zprev is localcntrs before the last step.                    *)
-EXTENDS gcounter
+EXTENDS gcounter, Integers
 
 VARIABLES zprev
 zhvars == <<vars, zprev>>
